@@ -17,7 +17,7 @@ finally:
     subprocess.run("git -C /repo checkout -- . && git -C /repo clean -fdq", shell=True, check=True)
 out = p.stdout
 open(os.path.join("/verif/build", f"seedrun_{seed}_{pid}.log"), "w").write(out)
-viol = re.findall(r"VIOLATION property=(\S+) replay=(\S+)\n\s+harness=(\S+) check=\S+ desc=(.*?) loc=", out)
+viol = re.findall(r"VIOLATION property=(\S+) replay=(\S+)\n\s+harness=(\S+) check=.*? desc=(.*?) loc=", out)
 inc = re.findall(r"INCONCLUSIVE property=\S+ harness=(\S+): (.*)", out)
 res = dict(property=pid, args=extra, exit=p.returncode, wall_s=round(time.time() - t0),
            violations=[dict(harness=v[2], assertion=v[3]) for v in viol],
